@@ -182,14 +182,18 @@ class Conformers(list):
 
         rmsd_tol = Config.rmsd_threshold if rmsd_tol is None else rmsd_tol
 
-        if isinstance(rmsd_tol, float):
+        if not isinstance(rmsd_tol, Distance):
             logger.warning(
-                f"Assuming RMSD tolerance {rmsd_tol:.2f} has units" f" of Å"
+                f"Assuming RMSD tolerance {float(rmsd_tol):.2f} has units"
+                f" of Å"
             )
-            rmsd_tol = Distance(rmsd_tol, "Å")
+            rmsd_tol = Distance(float(rmsd_tol), "Å")
+
+        # Compare plain numbers, both in Å
+        rmsd_tol = float(rmsd_tol.to("Å"))
 
         logger.info(
-            f'Removing conformers with RMSD < {rmsd_tol.to("ang")} Å '
+            f"Removing conformers with RMSD < {rmsd_tol} Å "
             f"to any other (heavy atoms only, with no symmetry)"
         )
 
